@@ -127,7 +127,7 @@ inline Verdict execute(const std::string& target, const Plan& plan, const std::s
       // fails although characters were extracted).  What was read is then the text up to the last complete line,
       // and the verdict must be that of either text -- nothing else.
       if (err_end && (r.kind != a.kind || (a.kind == "ok" && r.digest != a.digest))) {
-        size_t nl = B.rfind('\n');
+        size_t nl = B.rfind(html ? '\0' : '\n');       // read_html takes the stream as "lines" that end with a NUL: the whole text is the line in which the error struck
         Outcome r2 = run_adjres(nl == std::string::npos ? std::string() : B.substr(0, nl + 1), {}, false, html); st.add("parses");
         if (r2.kind == a.kind && (a.kind != "ok" || r2.digest == a.digest)) { st.add("error_dropped_partial_line"); r = r2; }
       }
